@@ -199,7 +199,8 @@ pub fn step<E: Elem>(v: &mut dyn VecCore<E>, model: &mut Vec<u32>, ctx: &mut VCt
     let m = E::MODULUS;
     let nv = |ctx: &mut VCtx| ctx.rng.below(m as usize) as u32;
     // choose an operation the family supports
-    let mut w = [6u32, 6, 4, 4, 1, 0, 0, 0, 0, 0, 0, 0, 0, 0, 0, 0, 0, 0, 0, 0, 0, 0, 0, 0, 0, 0, 0, 0, 0, 0, 0, 0, 0];
+    let mut w = [0u32; 51];
+    w[..5].copy_from_slice(&[6, 6, 4, 4, 1]);
     if has_filter {
         for (i, x) in [(6, 4), (7, 2), (8, 2), (9, 2), (10, 7), (11, 4)] {
             w[i] = x;
@@ -209,6 +210,13 @@ pub fn step<E: Elem>(v: &mut dyn VecCore<E>, model: &mut Vec<u32>, ctx: &mut VCt
         for (i, x) in [(12, 14), (13, 6), (14, 3), (15, 8), (16, 4), (17, 3), (18, 3), (19, 2), (20, 3), (21, 5), (22, 3), (23, 3), (24, 3), (25, 2), (26, 3), (27, 2), (28, 2), (29, 3), (30, 3), (31, 2), (32, 2)] {
             w[i] = x;
         }
+        // second generation: the remaining growth entry points
+        for (i, x) in [(33, 2), (34, 3), (35, 2), (36, 2), (37, 2), (38, 3), (39, 2), (40, 2), (41, 2), (42, 2), (43, 2), (44, 2), (45, 2), (46, 3), (47, 4), (48, 3), (49, 8), (50, 4)] {
+            w[i] = x;
+        }
+        if fixed {
+            w[46] = 0;
+        }
     }
     let op = ctx.rng.weighted(&w);
     let mut grows = false;
@@ -216,7 +224,9 @@ pub fn step<E: Elem>(v: &mut dyn VecCore<E>, model: &mut Vec<u32>, ctx: &mut VCt
     let mut held: Vec<u32> = Vec::new();
     let mut forgot: Option<(usize, Vec<u32>)> = None;
     let mut exact_reserve = None;
+    let mut shrink_floor: Option<usize> = None;
     let model_before = model.clone();
+    let mut partial_ok: Option<Vec<u32>> = None;
     // run on the real collection and on the model
     let (real, modl): (Real, Result<Vec<u32>, ()>) = match op {
         0 => {
@@ -429,6 +439,61 @@ pub fn step<E: Elem>(v: &mut dyn VecCore<E>, model: &mut Vec<u32>, ctx: &mut VCt
                 }),
             )
         }
+        33..=37 => {
+            let x = nv(ctx);
+            grows = true;
+            added = 1;
+            ctx.begin(format!("{} {x}", ["try_push_with", "push_mut", "try_push_mut", "push_mut_with", "try_push_mut_with"][op - 33]));
+            let g = v.grow().unwrap();
+            let pair = |(val, idx): (u32, usize)| vec![val, idx as u32];
+            (
+                real_do(|| match op {
+                    33 => g
+                        .try_push_with(&mut || {
+                            tr::burn();
+                            E::make(x)
+                        })
+                        .map(|_| vec![]),
+                    34 => Ok(pair(g.push_mut(E::make(x)))),
+                    35 => g.try_push_mut(E::make(x)).map(pair),
+                    36 => Ok(pair(g.push_mut_with(&mut || {
+                        tr::burn();
+                        E::make(x)
+                    }))),
+                    _ => g
+                        .try_push_mut_with(&mut || {
+                            tr::burn();
+                            E::make(x)
+                        })
+                        .map(pair),
+                }),
+                model_do(|| {
+                    let idx = if E::ZST { usize::MAX } else if rev { 0 } else { model.len() };
+                    if rev {
+                        model.insert(0, x % m)
+                    } else {
+                        model.push(x % m)
+                    }
+                    if op == 33 { vec![] } else { vec![x % m, idx as u32] }
+                }),
+            )
+        }
+        38 | 39 => {
+            let x = nv(ctx);
+            let i = gen_index(&mut ctx.rng, len);
+            grows = true;
+            added = 1;
+            ctx.begin(format!("{} {i} {x}", if op == 38 { "insert_mut" } else { "try_insert_mut" }));
+            let g = v.grow().unwrap();
+            let pair = |(val, idx): (u32, usize)| vec![val, idx as u32];
+            (
+                real_do(|| if op == 38 { Ok(pair(g.insert_mut(i, E::make(x)))) } else { g.try_insert_mut(i, E::make(x)).map(pair) }),
+                model_do(|| {
+                    model.insert(i, x % m);
+                    vec![x % m, if E::ZST { u32::MAX } else { i as u32 }]
+                }),
+            )
+        }
         12 | 13 | 14 => {
             let x = nv(ctx);
             grows = true;
@@ -511,7 +576,7 @@ pub fn step<E: Elem>(v: &mut dyn VecCore<E>, model: &mut Vec<u32>, ctx: &mut VCt
                 }),
             )
         }
-        18 | 19 | 20 => {
+        18 | 19 | 20 | 43 => {
             let x = nv(ctx);
             let n = match ctx.rng.below(4) {
                 0 => gen_index(&mut ctx.rng, len).min(len + 40),
@@ -521,7 +586,7 @@ pub fn step<E: Elem>(v: &mut dyn VecCore<E>, model: &mut Vec<u32>, ctx: &mut VCt
             };
             grows = n > len;
             added = n.saturating_sub(len);
-            ctx.begin(format!("{} {n} {x}", ["resize", "try_resize", "resize_with"][op - 18]));
+            ctx.begin(format!("{} {n} {x}", if op == 43 { "try_resize_with" } else { ["resize", "try_resize", "resize_with"][op - 18] }));
             let g = v.grow().unwrap();
             let mut counter = x;
             (
@@ -531,6 +596,13 @@ pub fn step<E: Elem>(v: &mut dyn VecCore<E>, model: &mut Vec<u32>, ctx: &mut VCt
                         Ok(vec![])
                     }
                     19 => g.try_resize(n, E::make(x)).map(|_| vec![]),
+                    43 => g
+                        .try_resize_with(n, &mut || {
+                            tr::burn();
+                            counter = counter.wrapping_add(1);
+                            E::make(counter)
+                        })
+                        .map(|_| vec![]),
                     _ => {
                         g.resize_with(n, &mut || {
                             tr::burn();
@@ -551,7 +623,7 @@ pub fn step<E: Elem>(v: &mut dyn VecCore<E>, model: &mut Vec<u32>, ctx: &mut VCt
                         }
                     } else {
                         for _ in 0..n - model.len() {
-                            let val = if op == 20 {
+                            let val = if op == 20 || op == 43 {
                                 c = c.wrapping_add(1);
                                 c % m
                             } else {
@@ -568,7 +640,7 @@ pub fn step<E: Elem>(v: &mut dyn VecCore<E>, model: &mut Vec<u32>, ctx: &mut VCt
                 }),
             )
         }
-        21 | 22 | 23 | 26 | 27 => {
+        21 | 22 | 23 | 26 | 27 | 40 => {
             let n = ctx.rng.range(0, 20);
             let xs: Vec<u32> = (0..n).map(|_| nv(ctx)).collect();
             grows = true;
@@ -578,6 +650,7 @@ pub fn step<E: Elem>(v: &mut dyn VecCore<E>, model: &mut Vec<u32>, ctx: &mut VCt
                 22 => "try_extend_from_slice_clone",
                 23 => "extend_from_slice_copy",
                 26 => "append(Vec)",
+                40 => "try_extend_from_slice_copy",
                 _ => "try_append(Vec)",
             };
             ctx.begin(format!("{name} {n} elements"));
@@ -598,6 +671,7 @@ pub fn step<E: Elem>(v: &mut dyn VecCore<E>, model: &mut Vec<u32>, ctx: &mut VCt
                         g.append_vec(src);
                         Ok(vec![])
                     }
+                    40 => g.try_extend_from_slice_copy(&src).map(|_| vec![]),
                     _ => g.try_append_vec(src).map(|_| vec![]),
                 }),
                 model_do(|| {
@@ -611,18 +685,19 @@ pub fn step<E: Elem>(v: &mut dyn VecCore<E>, model: &mut Vec<u32>, ctx: &mut VCt
                 }),
             )
         }
-        24 | 25 => {
+        24 | 25 | 41 | 42 => {
             let r = gen_range(&mut ctx.rng, len);
             grows = true;
             added = model_do(|| std::slice::range(r, ..len).len()).unwrap_or(0);
-            ctx.begin(format!("extend_from_within_{} {r:?}", if op == 24 { "clone" } else { "copy" }));
+            ctx.begin(format!("{}extend_from_within_{} {r:?}", if op > 40 { "try_" } else { "" }, if op == 24 || op == 42 { "clone" } else { "copy" }));
             let g = v.grow().unwrap();
             (
                 real_do(|| {
-                    if op == 24 {
-                        g.extend_from_within_clone(r)
-                    } else {
-                        g.extend_from_within_copy(r)
+                    match op {
+                        24 => g.extend_from_within_clone(r),
+                        25 => g.extend_from_within_copy(r),
+                        41 => g.try_extend_from_within_copy(r)?,
+                        _ => g.try_extend_from_within_clone(r)?,
                     }
                     Ok(vec![])
                 }),
@@ -660,7 +735,7 @@ pub fn step<E: Elem>(v: &mut dyn VecCore<E>, model: &mut Vec<u32>, ctx: &mut VCt
                 }),
             )
         }
-        29 | 30 | 31 => {
+        29 | 30 | 31 | 44 => {
             let n = match ctx.rng.below(5) {
                 0 => 0,
                 1 => ctx.rng.range(1, 40),
@@ -668,7 +743,7 @@ pub fn step<E: Elem>(v: &mut dyn VecCore<E>, model: &mut Vec<u32>, ctx: &mut VCt
                 3 => usize::MAX - ctx.rng.range(0, 3),
                 _ => (isize::MAX as usize) / size_of::<E>().max(1) + ctx.rng.range(0, 3),
             };
-            ctx.begin(format!("{} {n}", ["reserve", "try_reserve", "try_reserve_exact"][op - 29]));
+            ctx.begin(format!("{} {n}", if op == 44 { "reserve_exact" } else { ["reserve", "try_reserve", "try_reserve_exact"][op - 29] }));
             grows = true;
             added = n;
             let g = v.grow().unwrap();
@@ -678,6 +753,12 @@ pub fn step<E: Elem>(v: &mut dyn VecCore<E>, model: &mut Vec<u32>, ctx: &mut VCt
                     Ok(vec![])
                 }
                 30 => g.try_reserve(n).map(|_| vec![]),
+                44 => {
+                    if !g.reserve_exact(n) {
+                        g.reserve(n);
+                    }
+                    Ok(vec![])
+                }
                 _ => match g.try_reserve_exact(n) {
                     Some(r) => r.map(|_| vec![]),
                     None => g.try_reserve(n).map(|_| vec![]),
@@ -697,12 +778,111 @@ pub fn step<E: Elem>(v: &mut dyn VecCore<E>, model: &mut Vec<u32>, ctx: &mut VCt
                 Ok(vec![]),
             )
         }
+        45 => {
+            let n = match ctx.rng.below(3) {
+                0 => 0,
+                1 => ctx.rng.range(0, len + 1),
+                _ => ctx.rng.range(len, cap0.unwrap_or(len).min(len + 300) + 2),
+            };
+            ctx.begin(format!("shrink_to {n}"));
+            shrink_floor = Some(n);
+            let g = v.grow().unwrap();
+            (
+                real_do(|| {
+                    if !g.shrink_to(n) {
+                        g.shrink_to_fit();
+                    }
+                    Ok(vec![])
+                }),
+                Ok(vec![]),
+            )
+        }
+        46 => {
+            // write into the spare capacity, then set_len
+            let room = cap0.map_or(0, |c| c - len).min(6);
+            let k = ctx.rng.range(0, room);
+            let xs: Vec<u32> = (0..k).map(|_| nv(ctx) % m).collect();
+            let via_split = ctx.rng.bool();
+            ctx.begin(format!("{} + set_len (+{k})", if via_split { "split_at_spare_mut" } else { "spare_capacity_mut" }));
+            added = k;
+            let src: Vec<E> = xs.iter().map(|x| E::make(*x)).collect();
+            let expect = model.clone();
+            let g = v.grow().unwrap();
+            (
+                real_do(|| Ok(vec![g.spare_fill(src, via_split, &expect) as u32])),
+                model_do(|| {
+                    if rev {
+                        model.splice(0..0, xs.iter().copied());
+                    } else {
+                        model.extend(xs.iter().copied());
+                    }
+                    vec![1]
+                }),
+            )
+        }
+        47 | 48 => {
+            let n = ctx.rng.range(0, 12);
+            let xs: Vec<u32> = (0..n).map(|_| nv(ctx) % m).collect();
+            let hint = *ctx.rng.pick(&[n, n, 0, n / 2, n + 3]);
+            grows = true;
+            added = n.max(hint);
+            if hint < n {
+                // element-wise growth: a refusal may leave a prefix of the new elements behind
+                partial_ok = Some(xs.clone());
+            }
+            ctx.begin(format!("Extend<{}> {n} elements, size hint {hint}", if op == 47 { "T" } else { "&T" }));
+            let src: Vec<E> = xs.iter().map(|x| E::make(*x)).collect();
+            let g = v.grow().unwrap();
+            (
+                real_do(|| {
+                    g.extend_iter(src, op == 48, hint);
+                    Ok(vec![])
+                }),
+                model_do(|| {
+                    for x in &xs {
+                        if rev {
+                            model.insert(0, *x)
+                        } else {
+                            model.push(*x)
+                        }
+                    }
+                    vec![]
+                }),
+            )
+        }
+        49 | 50 => {
+            let kind = ctx.rng.below(APPEND_KINDS.len());
+            let n = if kind >= 12 { 3 } else { ctx.rng.range(0, 10) };
+            let xs: Vec<u32> = (0..n).map(|_| nv(ctx) % m).collect();
+            let iter_kind = (6..=9).contains(&kind);
+            let (k, j) = if iter_kind { (ctx.rng.range(0, 3), ctx.rng.range(0, 3)) } else { (0, 0) };
+            let k2 = k.min(n);
+            let j2 = j.min(n - k2);
+            let ys: Vec<u32> = xs[k2..n - j2].to_vec();
+            grows = true;
+            added = ys.len();
+            ctx.begin(format!("{}append({}) of {n} elements after pulling {k2} front / {j2} back", if op == 50 { "try_" } else { "" }, APPEND_KINDS[kind]));
+            ctx.rep.count(&format!("append_src:{}", APPEND_KINDS[kind]));
+            let src: Vec<E> = xs.iter().map(|x| E::make(*x)).collect();
+            let g = v.grow().unwrap();
+            (
+                real_do(|| g.append_src(kind, src, k, j, op == 50).map(|_| vec![])),
+                model_do(|| {
+                    if rev {
+                        model.splice(0..0, ys.iter().copied());
+                    } else {
+                        model.extend(ys.iter().copied());
+                    }
+                    vec![]
+                }),
+            )
+        }
         _ => return,
     };
     let _ = &mut held;
     let refused = ctx.refused();
     let full = fixed && grows && cap0.map_or(false, |c| len.checked_add(added).map_or(true, |t| t > c));
-    let is_try = matches!(op, 13 | 16 | 19 | 22 | 27 | 30 | 31);
+    let is_try = matches!(op, 13 | 16 | 19 | 22 | 27 | 30 | 31 | 33 | 35 | 37 | 39 | 40 | 41 | 42 | 43 | 50);
     let mut resync = false;
     match (real, modl) {
         (Real::Injected, _) => {
@@ -777,7 +957,7 @@ pub fn step<E: Elem>(v: &mut dyn VecCore<E>, model: &mut Vec<u32>, ctx: &mut VCt
             resync = true;
             // C07: the collection still has its previous length and contents
             let now = vals(v.slice());
-            if now != model_before {
+            if now != model_before && !partial_ok.as_ref().map_or(false, |xs| is_prefix_extension(&model_before, &now, xs, rev)) {
                 ctx.viol("C07", format!("failed_operation_changed_collection:{}:{}", v.family(), opname(&ctx.desc)), format!("before {model_before:?} after {now:?}"));
             }
         }
@@ -791,7 +971,7 @@ pub fn step<E: Elem>(v: &mut dyn VecCore<E>, model: &mut Vec<u32>, ctx: &mut VCt
             }
             resync = true;
             let now = vals(v.slice());
-            if now != model_before {
+            if now != model_before && !partial_ok.as_ref().map_or(false, |xs| is_prefix_extension(&model_before, &now, xs, rev)) {
                 ctx.viol("C07", format!("failed_operation_changed_collection:{}:{}", v.family(), opname(&ctx.desc)), format!("before {model_before:?} after {now:?}"));
             }
         }
@@ -819,7 +999,12 @@ pub fn step<E: Elem>(v: &mut dyn VecCore<E>, model: &mut Vec<u32>, ctx: &mut VCt
         } else if let Some(c0) = cap0 {
             // no reallocation while the promised capacity suffices
             let needs = if grows { len.saturating_add(added) } else { 0 };
-            let is_shrink = op == 32;
+            let is_shrink = op == 32 || op == 45;
+            if let Some(n) = shrink_floor {
+                if c < n.min(c0) {
+                    ctx.viol("C08", format!("shrink_to_went_below_floor:{}", v.family()), format!("shrink_to {n}: capacity {c0} -> {c} (len {len})"));
+                }
+            }
             if needs <= c0 && !is_shrink && c0 > 0 && (v.anchor() != anchor0 || c != c0) && !(fixed && false) {
                 ctx.viol("C08", format!("reallocated_although_capacity_sufficed:{}:{}", v.family(), opname(&ctx.desc)), format!("cap {c0}->{c} anchor {anchor0:#x}->{:#x} len {len}+{added}", v.anchor()));
             }
@@ -832,6 +1017,15 @@ pub fn step<E: Elem>(v: &mut dyn VecCore<E>, model: &mut Vec<u32>, ctx: &mut VCt
         }
     }
     check_ledger(v, ctx, &held);
+}
+
+/// `now` is `before` plus a prefix of `xs` pushed one by one (prepended in reverse for the rev vector)
+fn is_prefix_extension(before: &[u32], now: &[u32], xs: &[u32], rev: bool) -> bool {
+    if now.len() < before.len() || now.len() - before.len() > xs.len() {
+        return false;
+    }
+    let k = now.len() - before.len();
+    if rev { now[k..] == *before && now[..k].iter().rev().eq(xs[..k].iter()) } else { now[..before.len()] == *before && now[before.len()..] == xs[..k] }
 }
 
 fn opname(desc: &str) -> String {
